@@ -75,7 +75,16 @@ struct Arena {
 };
 inline Arena& arena() { static Arena a; return a; }
 
+// a handle that was never written (glm read an uninitialised object) is caught here instead of crashing
+inline bool& bad_handle() { static bool b = false; return b; }
+inline uint32_t chk(uint32_t id) { if (id >= arena().nodes.size()) { bad_handle() = true; return 0; } return id; }
 inline uint32_t mk(Op op, uint32_t a = 0, uint32_t b = 0, uint32_t c = 0, uint8_t sub = 0) {
+  switch (op) {
+    case VAR: case LIT: case KONST: break;
+    case NEG: case CALL1: case BNOT: case CAST: case C_ISNAN: case C_ISINF: case C_NOT: a = chk(a); break;
+    case CALL3: a = chk(a); b = chk(b); c = chk(c); break;
+    default: a = chk(a); b = chk(b);
+  }
   Node n{op, sub, a, b, c, 0.0, 0}; return arena().mk(n);
 }
 inline uint32_t mk_lit(double d) { Node n{LIT, 0, 0, 0, 0, d, 0}; return arena().mk(n); }
@@ -218,19 +227,27 @@ struct Traced {
   bool ok = true; std::string err;
 };
 
+// fill the stack below the call with 0xFF so that an object glm leaves uninitialised holds an invalid
+// handle (0xFFFFFFFF) rather than a stale valid one; best effort, the unit TUs are compiled at -O0
+__attribute__((noinline)) inline void poison_stack() { volatile unsigned char buf[1 << 17]; for (size_t i = 0; i < sizeof buf; ++i) buf[i] = 0xFF; }
+
 template<class F>
 Traced trace_unit(std::string const& name, int nin, int nout, F&& f, size_t max_paths = 4096) {
   Traced tr; tr.name = name; tr.nin = nin; tr.nout = nout; tr.ty = T_R;
   std::vector<SymR> in(nin), out(nout);
   for (int i = 0; i < nin; ++i) in[i] = SymR::var(i);
+  mk_lit(0.0);                                     // node ids start above the inputs
   Oracle& o = oracle();
   o.decisions.clear(); o.overflow = false;
   for (;;) {
     o.pos = 0; o.trail.clear();
     for (int j = 0; j < nout; ++j) out[j] = SymR(0.0);
+    bad_handle() = false;
+    poison_stack();
     f((SymR const*)in.data(), out.data());
     Path p; p.trail = o.trail;
-    for (int j = 0; j < nout; ++j) p.outs.push_back(out[j].id);
+    for (int j = 0; j < nout; ++j) p.outs.push_back(chk(out[j].id));
+    if (bad_handle()) { tr.ok = false; tr.err = "uninitialised value read (a result depends on an object glm never wrote)"; tr.paths.push_back(std::move(p)); break; }
     tr.paths.push_back(std::move(p));
     if (o.overflow) { tr.ok = false; tr.err = "decision depth cap"; break; }
     if (tr.paths.size() > max_paths) { tr.ok = false; tr.err = "path cap"; break; }
